@@ -43,6 +43,7 @@ var debugLog = flag.Bool("assembly_debug_log", defaultDebug, "If true, the githu
 
 const invalidSequence = -1
 const uint32Max = 0xFFFFFFFF
+const uint32Size = 1 << 32
 
 // Sequence is a TCP sequence number.  It provides a few convenience functions
 // for handling TCP wrap-around.  The sequence should always be in the range
@@ -64,10 +65,10 @@ type Sequence int64
 // uint32 space to be after any sequence in the last quarter of that space, thus
 // wrapping the uint32 space.
 func (s Sequence) Difference(t Sequence) int {
-	if s > uint32Max-uint32Max/4 && t < uint32Max/4 {
-		t += uint32Max
-	} else if t > uint32Max-uint32Max/4 && s < uint32Max/4 {
-		s += uint32Max
+	if s > uint32Size-uint32Size/4 && t < uint32Size/4 {
+		t += uint32Size
+	} else if t > uint32Size-uint32Size/4 && s < uint32Size/4 {
+		s += uint32Size
 	}
 	return int(t - s)
 }
